@@ -11,8 +11,11 @@ package cache
 //   - Get(k): a resident key returns the value stored by the Put that made it
 //     resident and becomes the most recently used key; a miss returns nil and
 //     changes nothing.
-//   - Put(k, v): a resident key is only refreshed ("Already in the cache, and
-//     now marked as most-recently-used"), its value is NOT replaced; a
+//   - Put(k, v): a resident key is refreshed ("Already in the cache, and now
+//     marked as most-recently-used"); lru.go keeps the resident value, but an
+//     atomic map may just as well replace it (both values belong to the same
+//     public key), so the value policy is a parameter (c18PutReplaces) and a
+//     history is judged under both before it is called illegal; a
 //     non-resident key is inserted as the most recently used key after
 //     evicting the least recently used key if the cache is full.
 //   - Snapshot (harness-only observation made after quiescence): the ordered
@@ -89,6 +92,9 @@ func c18ModelStep(capacity int, s string, in c18In, out c18Out) (ok bool, ns str
 	case c18OpPut:
 		i := c18StateFind(s, in.K)
 		if i >= 0 {
+			if c18PutReplaces {
+				return true, string([]byte{byte(in.K), byte(in.Val)}) + s[:i] + s[i+2:], false
+			}
 			return true, s[i:i+2] + s[:i] + s[i+2:], false
 		}
 		if len(s)/2 == capacity {
@@ -101,6 +107,11 @@ func c18ModelStep(capacity int, s string, in c18In, out c18Out) (ok bool, ns str
 	}
 	panic("c18: bad op")
 }
+
+// c18PutReplaces selects the value policy of Put on a resident key: keep the
+// resident value (false, what lru.go does) or replace it (true).  Only the
+// checking code, which runs on one goroutine after quiescence, touches it.
+var c18PutReplaces bool
 
 func c18PorcupineModel(capacity int) porcupine.Model {
 	return porcupine.Model{
